@@ -8,7 +8,7 @@ expr IR:  ["var", n] ["call", objIR, meth] ["sel", srcIR, p, bodyIR] ["whr", src
 """
 import ast
 import dataclasses
-from typing import Any, Generic, Iterable, TypeVar  # noqa: F401
+from typing import Any, Generic, Iterable, Optional, TypeVar  # noqa: F401
 
 from hypothesis import strategies as st
 
@@ -60,11 +60,12 @@ SKEL = {
     "MixIt": ([], ["it", ["c", "Jet", []]]),
     "MixBox": (["T"], ["c", "Box", [["tv", "T"]]]),
     "GenLast": (["T"], ["c", "Box", [["tv", "T"]]]),
+    "MixIntBox": ([], ["c", "Box", [["int"]]]),  # class MixIntBox(PlainB, Box[int]): a method of Box is found by way of the SECOND base
     "Coll": (["T"], None),  # registered collection class (operators for every iterable)
     "Info": ([], None),  # dataclass
 }
-ORDER = ["Trk", "Jet", "Evt", "Box", "Pair", "SubBox", "IntBox", "MyIt", "SubIt", "TrkIt", "Tag", "Tag2", "Swap", "HalfPair", "It2", "TagInts", "PlainB", "Mix", "MixIt", "MixBox", "GenLast"]
-EXTRA_FIRST = {"MixIt": "PlainB", "MixBox": "PlainB"}  # class MixIt(PlainB, Iterable[Jet]); class MixBox(PlainB, Box[T])
+ORDER = ["Trk", "Jet", "Evt", "Box", "Pair", "SubBox", "IntBox", "MyIt", "SubIt", "TrkIt", "Tag", "Tag2", "Swap", "HalfPair", "It2", "TagInts", "PlainB", "Mix", "MixIt", "MixBox", "GenLast", "MixIntBox"]
+EXTRA_FIRST = {"MixIt": "PlainB", "MixBox": "PlainB", "MixIntBox": "PlainB"}  # class MixIt(PlainB, Iterable[Jet]); class MixBox(PlainB, Box[T])
 GENERIC_FIRST = {"GenLast"}  # class GenLast(Generic[T], Box[T])
 RENAMES = {"Box": ["Container", "Collection", "Holder"], "Pair": ["Mapping", "Both"], "MyIt": ["Sequence", "Collection2", "Reversible"], "Jet": ["Hashable", "Sized"]}
 GEN1 = ["Box", "SubBox", "MyIt", "SubIt", "HalfPair", "TagInts", "MixBox", "GenLast"]
@@ -81,6 +82,8 @@ def subst(t, env):
         return env.get(t[1], ["any"])
     if k == "it":
         return ["it", subst(t[1], env)]
+    if k == "opt":
+        return ["opt", subst(t[1], env)]
     if k == "c":
         return ["c", t[1], [subst(a, env) for a in t[2]]]
     if k == "rec":
@@ -90,6 +93,8 @@ def subst(t, env):
 
 def lookup_method(model, t, meth):
     """declared return type of t.meth(), type variables substituted along the declared bases; None if no such method"""
+    if t[0] == "opt":
+        return lookup_method(model, t[1], meth)  # Optional[X]: the methods are those of X
     if t[0] != "c":
         return None
     cls, args = t[1], t[2]
@@ -109,6 +114,8 @@ def lookup_method(model, t, meth):
 
 def all_methods(model, t):
     out = []
+    if t[0] == "opt":
+        return all_methods(model, t[1])
     if t[0] != "c":
         return out
     cls, args = t[1], t[2]
@@ -137,7 +144,7 @@ def _tvs(t):
         return []
     if t[0] == "tv":
         return [t[1]]
-    if t[0] == "it":
+    if t[0] in ("it", "opt"):
         return _tvs(t[1])
     if t[0] == "c":
         return [v for x in t[2] for v in _tvs(x)]
@@ -176,7 +183,7 @@ def _type(draw, params, depth, top=True):
     if c == 6:
         return ["c", draw(st.sampled_from(GEN2)), [draw(_type(params, depth - 1, False)), draw(_type(params, depth - 1, False))]]
     if c == 7:
-        return ["c", draw(st.sampled_from(["IntBox", "TrkIt", "Info", "MixIt"])), []]
+        return ["c", draw(st.sampled_from(["IntBox", "TrkIt", "Info", "MixIt", "MixIntBox"])), []]
     if c == 8 and params:
         return ["it", ["tv", draw(st.sampled_from(params))]]
     if c == 9 and top:
@@ -216,6 +223,9 @@ def _model(draw):
     a, b = draw(st.sampled_from(_SCAL + [["c", "Trk", []]])), draw(st.sampled_from(_SCAL + [["c", "Jet", []]]))
     m[holder].append(["mixed", draw(st.sampled_from([["c", "Tag", [a, b]], ["c", "Tag2", [a, b]], ["c", "Swap", [a, b]], ["c", "HalfPair", [a]], ["c", "It2", [a, b]], ["c", "TagInts", [b]], ["c", "Mix", [a]], ["c", "Mix", [b]],
                                                           ["c", "MixIt", []], ["c", "MixBox", [a]], ["c", "GenLast", [b]], ["c", "MixIt", []]]))])
+    # an object that may be missing (Optional[X]: its methods are those of X), a concrete class whose generic base is its second base
+    m["Evt"].append(["lead", ["opt", ["c", "Jet", []]]])
+    m["Evt"].append(["mib", ["c", "MixIntBox", []]])
     # a two-parameter generic with two DIFFERENT arguments is reachable from the event (which argument a method's variable takes)
     m["Evt"].append(["pair", ["c", draw(st.sampled_from(["Pair", "Pair", "Swap", "Tag", "Tag2"])), [["c", "Trk", []], draw(st.sampled_from([["int"], ["float"], ["c", "Jet", []]]))]]])
     return m
@@ -515,6 +525,8 @@ def ann(t):
         return t[1]
     if k == "it":
         return f"Iterable[{ann(t[1])}]"
+    if k == "opt":
+        return f"Optional[{ann(t[1])}]"
     if k == "c":
         return t[1] + (f"[{', '.join(ann(a) for a in t[2])}]" if t[2] else "")
     raise ValueError(t)
@@ -548,7 +560,7 @@ def build(model, rename=None, partial=()):
 
     from func_adl import ObjectStream, register_func_adl_os_collection
 
-    ns = {"Any": Any, "Generic": Generic, "Iterable": Iterable, "TypeVar": TypeVar, "dataclasses": dataclasses, "ObjectStream": ObjectStream}
+    ns = {"Any": Any, "Generic": Generic, "Iterable": Iterable, "Optional": Optional, "TypeVar": TypeVar, "dataclasses": dataclasses, "ObjectStream": ObjectStream}
     src = ["T = TypeVar('T')", "U = TypeVar('U')", "K = TypeVar('K')", "V = TypeVar('V')"]
     for cls in ORDER:
         params, base = SKEL[cls]
